@@ -14,6 +14,9 @@
 (*   - ownership runs: {"e":"OwnCase","cmdSpell":..,"reach":..,"order":..,  *)
 (*     "cwdHas":0|1,"guard":g} followed by {"e":"OwnInc","src":<source     *)
 (*     class logged for the #include that reaches the command-line file>}. *)
+(*   - chain runs: {"e":"ChainCase","ways":[..],"cmd":[..],"leafAt":[..]}  *)
+(*     followed by one {"e":"ChainInc","dir":..,"src":..} per #include of  *)
+(*     the chain, in order ("R" = the one place the intermediate file is). *)
 (* are consumed by the actions of IncludeSearch; Refines / OnceOnly are    *)
 (* evaluated on every observed execution.                                  *)
 (***************************************************************************)
@@ -26,25 +29,26 @@ VARIABLE l
 tvars == <<vars, l>>
 
 IsE(i, e) == i <= NTr /\ Tr[i].e = e
-Ours == {"Case", "Include", "OnceCase", "Inc", "OwnCase", "OwnInc", "Reset"}
+Ours == {"Case", "Include", "OnceCase", "Inc", "OwnCase", "OwnInc", "ChainCase", "ChainInc", "Reset"}
 SeqSet(s) == {s[i] : i \in 1..Len(s)}
 B(x) == IF x THEN 1 ELSE 0
 
 BlankRest ==
   /\ spelled' = <<>> /\ parsed' = {} /\ pragma' = {} /\ defined' = FALSE
   /\ mcount' = 0 /\ rcount' = 0 /\ rres' = NotFound /\ mres' = NotFound
-Blank == guard' = "none" /\ BlankRest /\ own' = NoOwn
+Blank == guard' = "none" /\ BlankRest /\ own' = NoOwn /\ chain' = NoChain
 
 TInit ==
   /\ present = {} /\ cmd = <<>> /\ form = "quote" /\ noangles = FALSE /\ incIsCwd = FALSE
   /\ explicit = "none" /\ explicitViaLink = FALSE
   /\ phase = "idle" /\ rres = NotFound /\ mres = NotFound
   /\ guard = "none" /\ spelled = <<>> /\ parsed = {} /\ pragma = {} /\ defined = FALSE
-  /\ mcount = 0 /\ rcount = 0 /\ own = NoOwn
+  /\ mcount = 0 /\ rcount = 0 /\ own = NoOwn /\ chain = NoChain
   /\ l = 1
 
 TReset ==
   /\ IsE(l, "Reset") /\ phase \notin {"case", "own"}     \* a lookup / ownership case must have been resolved
+  /\ (phase = "chain" => chain.level = ChainDepth + 1)    \* a chain must have been followed to its end
   /\ phase' = "idle" /\ Blank
   /\ UNCHANGED <<present, cmd, form, noangles, incIsCwd, explicit, explicitViaLink>>
   /\ l' = l + 1
@@ -65,7 +69,7 @@ TInclude ==
 
 TOnceCase ==
   /\ IsE(l, "OnceCase") /\ phase = "idle"
-  /\ phase' = "once" /\ BlankRest /\ guard' = Tr[l].guard /\ own' = NoOwn
+  /\ phase' = "once" /\ BlankRest /\ guard' = Tr[l].guard /\ own' = NoOwn /\ chain' = NoChain
   /\ UNCHANGED <<present, cmd, form, noangles, incIsCwd, explicit, explicitViaLink>>
   /\ l' = l + 1
 
@@ -81,6 +85,7 @@ TOwnCase ==
   /\ IsE(l, "OwnCase") /\ phase = "idle"
   /\ phase' = "own" /\ BlankRest /\ guard' = Tr[l].guard
   /\ own' = [cmdSpell |-> Tr[l].cmdSpell, reach |-> Tr[l].reach, order |-> Tr[l].order, cwdHas |-> (Tr[l].cwdHas = 1)]
+  /\ chain' = NoChain
   /\ UNCHANGED <<present, cmd, form, noangles, incIsCwd, explicit, explicitViaLink>>
   /\ l' = l + 1
 
@@ -90,12 +95,25 @@ TOwnInc ==
   /\ Tr[l].src = rres'.src
   /\ l' = l + 1
 
+TChainCase ==
+  /\ IsE(l, "ChainCase") /\ phase = "idle"
+  /\ phase' = "chain" /\ BlankRest /\ guard' = "none" /\ own' = NoOwn
+  /\ chain' = [ways |-> Tr[l].ways, cmd |-> Tr[l].cmd, leafAt |-> SeqSet(Tr[l].leafAt), level |-> 1]
+  /\ UNCHANGED <<present, cmd, form, noangles, incIsCwd, explicit, explicitViaLink>>
+  /\ l' = l + 1
+
+\* one #include of the chain: the logged hit and source class are the reference's
+TChainInc ==
+  /\ IsE(l, "ChainInc") /\ ChainStep
+  /\ Tr[l].dir = rres'.dir /\ Tr[l].src = rres'.src
+  /\ l' = l + 1
+
 TForeign ==
   /\ l <= NTr /\ Tr[l].e \notin Ours
   /\ UNCHANGED vars /\ l' = l + 1
 
-TDone == l = NTr + 1 /\ phase \notin {"case", "own"} /\ UNCHANGED tvars
+TDone == l = NTr + 1 /\ phase \notin {"case", "own"} /\ (phase = "chain" => chain.level = ChainDepth + 1) /\ UNCHANGED tvars
 
-TNext == TReset \/ TCase \/ TInclude \/ TOnceCase \/ TInc \/ TOwnCase \/ TOwnInc \/ TForeign \/ TDone
+TNext == TReset \/ TCase \/ TInclude \/ TOnceCase \/ TInc \/ TOwnCase \/ TOwnInc \/ TChainCase \/ TChainInc \/ TForeign \/ TDone
 TSpec == TInit /\ [][TNext]_tvars
 =============================================================================
